@@ -156,6 +156,9 @@ def monitor_c14(block, impl):
             elif e in UNCHECKED:
                 if not res.startswith("ok"):
                     probs.append("`%s` (unchecked entry, OS accepts): expected success, got `%s`" % (op, res))
+            elif res.startswith(("err", "panic")) and not res.startswith(("err disp=same res=released", "panic disp=same res=released")):
+                # whatever the reason for a refusal (e.g. a number the library has no name for): nothing may have changed
+                probs.append("`%s` was refused, but not before something changed: `%s` (a refusal must leave every disposition as it was and release what was handed in)" % (op, res))
         elif w[0] in ("add", "hadd") or w[0] == "new":
             nums = [int(x) for x in (w[1:] if w[0] != "new" else w[2:])]
             before = []
